@@ -954,6 +954,14 @@ func (app *Haqq) setPostHandler() {
 // of the new block for every registered module. If there is a registered fork at the current height,
 // BeginBlocker will schedule the upgrade plan and perform the state migration (if any).
 func (app *Haqq) BeginBlocker(ctx sdk.Context, req abci.RequestBeginBlock) abci.ResponseBeginBlock {
+	// Begin blockers run on a gas meter of their own. The deliver-state context they are handed shares
+	// its (infinite) gas meter with baseapp, which reports that meter's consumption as GasUsed (and adds
+	// it to the block gas meter) for a transaction that fails before the ante handler installs the
+	// transaction's meter. Begin blockers read the store once per process (x/upgrade downgrade
+	// verification, x/capability InitMemStore), so charging them to that meter would make results and
+	// the fee market's block gas depend on when a node was last restarted.
+	ctx = ctx.WithGasMeter(sdk.NewInfiniteGasMeter())
+
 	// Perform any scheduled forks before executing the modules logic
 	app.ScheduleForkUpgrade(ctx)
 	return app.mm.BeginBlock(ctx, req)
